@@ -342,3 +342,34 @@ def argSpec (vdefs : List VarDef) : List ArgDef → List Argument → VarMap →
       | some (some x) => some (if tail.contains d.name then tail else .cons d.name x tail)
 
 end Gql
+
+namespace Gql
+
+/- ---- hypotheses of the C14 theorems ---- -/
+
+mutual
+  /-- the value is built from nil, scalars, slices WITHOUT null items and `map[string]interface{}`
+      maps (typed slices are allowed, typed maps are not).  JSON-like values whose lists contain no
+      `null` satisfy it; it is the hypothesis that excludes R14a (a null list item meeting a list
+      type) and the typed-map `SetMapIndex` panic. -/
+  def safeB : GoVal → Bool
+    | .slice _ xs => safeItemsB xs
+    | .map e kvs => e = .iface && safeFieldsB kvs
+    | _ => true
+  def safeItemsB : GoVals → Bool
+    | .nil => true
+    | .cons v r => !v.isNil && safeB v && safeItemsB r
+  def safeFieldsB : GoFields → Bool
+    | .nil => true
+    | .cons _ v r => safeB v && safeFieldsB r
+end
+
+/-- the named type exists in the schema and is an input type -/
+def InputTypeOK (s : Schema) (t : GType) : Prop :=
+  ∃ d, s.type? t.name = some d ∧ (d.kind = .scalar ∨ d.kind = .enum ∨ d.kind = .inputObject)
+
+/-- every field of every input object has an input type that exists (part of C07_loaded_closed) -/
+def InputsClosed (s : Schema) : Prop :=
+  ∀ n d, s.type? n = some d → d.kind = .inputObject → ∀ f ∈ d.fields, InputTypeOK s f.type
+
+end Gql
